@@ -294,6 +294,7 @@ func run(c *Ctx) {
 	im.Count("probe negative-cost updates", true)
 	tickTruth(c, im)
 	silentCrashHistory(c, im)
+	lateHandshakeHistory(c, im)
 	meshHistories(c, im)
 	Must(cf.Write())
 	Must(im.Write(c.Out))
@@ -555,6 +556,70 @@ func silentCrashHistory(c *Ctx, im *Impl) {
 		if round == 0 {
 			im.Sample(rec)
 		}
+	}
+}
+
+// lateHandshakeHistory: a new link between two nodes that already reach each other through a third, whose
+// two ends complete the handshake at different moments: everything m0 sends on the new link is held back
+// for a few update periods, so m1 keeps announcing "my connections: m2" (without m0) while m0 already counts
+// the link as established and hears those announcements through m2.  When the held messages arrive the link
+// is up on both sides and every table must give the direct route (cost 1), not the detour (cost 2).
+func lateHandshakeHistory(c *Ctx, im *Impl) {
+	rounds := 2
+	if c.Thorough() {
+		rounds = 8
+	}
+	for round := 0; round < rounds; round++ {
+		consts := FastConsts()
+		consts.RouteUpdate = time.Duration(60+c.Rng.Intn(60)) * time.Millisecond
+		m := NewMesh(consts)
+		tp := &topo{names: []string{"m0", "m1", "m2"}, edges: map[[2]int]float64{{0, 2}: 1, {1, 2}: 1}}
+		alive := map[string]bool{"m0": true, "m1": true, "m2": true}
+		for _, id := range tp.names {
+			m.AddNode(id)
+		}
+		_, err := m.Connect("m0", "m2", 1)
+		Must(err)
+		_, err = m.Connect("m1", "m2", 1)
+		Must(err)
+		rec := map[string]interface{}{"nodes": 3, "events": []string{"triangle closed by a link whose m0->m1 direction is held back"}}
+		if !WaitFor(12*consts.RouteUpdate+time.Second, func() bool { return meshAgrees(m, tp.graphOf(alive), alive, nil) }) {
+			im.Violate("two links through a common neighbour did not converge", "mesh-not-converged", rec)
+			m.Shutdown()
+			continue
+		}
+		hold := time.Duration(3+c.Rng.Intn(4)) * consts.RouteUpdate
+		release := time.Now().Add(hold)
+		_, err = m.ConnectPrepared("m0", "m1", 1, func(l *Link) {
+			held := 0
+			l.EndA.SetFilter(func(b []byte) ([][]byte, time.Duration) { // what m0 sends towards m1
+				// held messages are released in the order they were sent (a link does not reorder), 3 ms apart
+				if d := time.Until(release) + time.Duration(held)*3*time.Millisecond; d > 0 {
+					held++
+					return [][]byte{b}, d
+				}
+				return [][]byte{b}, 0
+			})
+		})
+		Must(err)
+		tp.edges[[2]int{0, 1}] = 1
+		g := tp.graphOf(alive)
+		time.Sleep(hold)
+		ok := WaitFor(12*consts.RouteUpdate+time.Second, func() bool { return meshAgrees(m, g, alive, nil) })
+		if !ok {
+			var why []string
+			meshAgrees(m, g, alive, &why)
+			im.Violate("after a link whose two ends finished the handshake at different moments the tables did not converge: "+strings.Join(why, "; "), "mesh-not-converged", rec)
+			if os.Getenv("VERIF_DEBUG") != "" {
+				for id, nd := range m.Nodes {
+					st := nd.Status()
+					fmt.Fprintf(os.Stderr, "DEBUG %s conns=%v known=%v table=%v\n", id, st.Connections, st.KnownConnectionCosts, st.RoutingTable)
+				}
+			}
+		}
+		m.Shutdown()
+		im.Hist("mesh:late-handshake")
+		im.Count(fmt.Sprintf("mesh late handshake %d hold=%v", round, hold), true)
 	}
 }
 
